@@ -100,6 +100,23 @@ theorem ProvTie_generator (Y : YieldFn) (F : BodyFn) (s : Prov.Sess) (t : Nat) :
         · simp [hk, invoke]
     · simp [hg, genElseReturns]
 
+/-- The generator implementation of the `firstresult` hook `pytask_execute_task` returns a result whenever it does not
+raise — so pluggy stops before the default implementation of execute.py, which would call the generator a second time
+(8626c87) — and returns none for other tasks. -/
+theorem ProvTie_generator_result (Y : YieldFn) (s : Prov.Sess) (t : Nat) (tk : PTask) (hf : findTask s.tasks t = some tk)
+    (hnr : (execProvGen Y s t).2.1 = false) : (execProvGen Y s t).2.2 = tk.gen := by
+  unfold execProvGen at hnr ⊢
+  rw [hf] at hnr ⊢
+  by_cases hg : tk.gen = true
+  · simp only [hg, if_true, genSteps, genRun, condGen] at hnr ⊢
+    by_cases hfl : tk.fails = true
+    · simp [hfl] at hnr
+    · simp only [hfl, Bool.false_eq_true, if_false] at hnr ⊢
+      by_cases hk : (Y tk.id (received tk)).isEmpty = true
+      · simp [hk] at hnr
+      · simp [hk]
+  · simp [hg, genElseReturns]
+
 /-- `provisional.pytask_execute_task_process_report` (arms from extract_engine): only a generator whose report is still
 SUCCESS ends the chain — no states are recorded for it; a failed generator goes on to the default handler. -/
 theorem ProvTie_report (s : Prov.Sess) (t : Nat) (r : Raised) :
